@@ -51,7 +51,7 @@ def answers_of(rng, rights, partial=None, allow_forms=True):
                  {'expect': partial, 'grade_decimal': pick(rng, [0.5, 0.25, 1.0 / 3, 0.1]),
                   'msg': pick(rng, ['', 'close', 'partly\nright'])})
     if form == 3 and len(rights) > 1:
-        return {'expect': T(*rights[:2]), 'ok': pick(rng, [True, 'partial', 'computed'])}
+        return {'expect': T(*rights[:2]), 'ok': pick(rng, [True, 'partial', 'computed', False])}
     if form == 4 and partial:
         return T(main, {'expect': partial, 'grade_decimal': 0.5, 'ok': 'partial'})
     return main
@@ -360,6 +360,7 @@ def t_matrix(rng, gid, configured=None, theme=False):
         cfg['answers'] = answers_of(rng, [answer] + rights, partial=None)
     negs = ['A^-1*A*(%s)' % answer, '(%s)*B^-1*B' % answer if answer != 'A*v' and answer != 'v*v' else 'A^-1*A*(%s)' % answer,
             'A^-2*A^2*(%s)' % answer]
+    negs += ['[[2,0],[0,4]]^-1', '[[2,0],[0,4]]^-1*[1,1]', '[[1,2],[3,4]]^-2']      # name-free inputs
     if targets:
         negs += ['mf(1)*A^-1*A*(%s)' % answer, 'A^-1*mf(1)*A*(%s)' % answer, 'A^-1*A*mf(1)*(%s)' % answer]
     bump = {'A*v': '[0,0.37]', 'A*B': '[[0,0],[0,0.37]]', 'A^2+B': '[[0.37,0],[0,0]]'}.get(answer)
